@@ -119,8 +119,15 @@ def run_build(cli, r, texts, lib_convert, workdir, idx):
     use_out = r.random() < 0.6
     outdir = os.path.join(d, "out", "svg") if use_out else src
     pattern = os.path.join(src if not missing else os.path.join(d, "nope"), "*.bob")
-    argv = ["build", "-i", pattern] + (["-o", outdir] if use_out else [])
-    p = subprocess.run([cli] + argv, stdout=subprocess.PIPE, stderr=subprocess.PIPE, timeout=120)
+    cwd = None
+    if r.random() < 0.5:
+        # relative paths, resolved against the current directory: input pattern in a sub-directory, -o beside it
+        cwd = d
+        pattern = os.path.join("src" if not missing else "nope", "*.bob")
+        if use_out:
+            outdir = os.path.join(d, "out_rel")
+    argv = ["build", "-i", pattern] + (["-o", (os.path.relpath(outdir, d) if cwd else outdir)] if use_out else [])
+    p = subprocess.run([cli] + argv, stdout=subprocess.PIPE, stderr=subprocess.PIPE, timeout=120, cwd=cwd)
     written = []
     if os.path.isdir(outdir):
         written = [f for f in os.listdir(outdir) if f.endswith(".svg")]
